@@ -482,6 +482,7 @@ func c18(c *Ctx) {
 	// ---------- F2: every function that copies between raft.Log and pb.RaftLog
 	logFields := []string{"Index", "Term", "Type", "Data", "Extensions", "AppendedAt"}
 	nEnc, nDec := 0, 0
+	encFns, decFns := map[*load.FuncInfo]bool{}, map[*load.FuncInfo]bool{}
 	for _, fi := range c.P.AllFuncs {
 		if fi.Body() == nil {
 			continue
@@ -497,6 +498,7 @@ func c18(c *Ctx) {
 		}
 		if copying >= 2 {
 			nEnc++
+			encFns[fi] = true
 			r.Functions++
 			c.checkCopy("C18.F2", fi, fi.Body(), pbLog, raftLog, logFields, nil, false)
 			c.checkLogConversions(fi, sites, true)
@@ -510,6 +512,7 @@ func c18(c *Ctx) {
 		}
 		if copying >= 2 {
 			nDec++
+			decFns[fi] = true
 			r.Functions++
 			c.checkCopy("C18.F2", fi, fi.Body(), raftLog, pbLog, logFields, nil, false)
 			c.checkLogConversions(fi, sites, false)
@@ -582,8 +585,38 @@ func c18(c *Ctx) {
 			r.Break("C18.F2: only %d returns after the Unmarshal in %s", nRet, name)
 		}
 	}
-	r.Check(nEnc >= 3, "C18.F2", "module", "raft.Log -> pb.RaftLog encoder copies found", "-", itoa(nEnc)+" functions", "fewer encoder copies than expected (Apply, StoreLogs, ConvertToProto)")
-	r.Check(nDec >= 5, "C18.F2", "module", "pb.RaftLog -> raft.Log decoder copies found", "-", itoa(nDec)+" functions", "fewer decoder copies than expected (raftlog.FromBytes, GetLog, Snapshot, canary, log dump)")
+	// the functions that have to convert do so themselves or through a (shared) conversion function, which is checked above
+	// like any other copy
+	converts := func(name string, set map[*load.FuncInfo]bool) bool {
+		fi := c.P.Func(name)
+		if fi == nil {
+			return false
+		}
+		if set[fi] {
+			return true
+		}
+		for _, cal := range c.callees(fi) {
+			if set[cal] {
+				return true
+			}
+			for _, cal2 := range c.callees(cal) {
+				if set[cal2] {
+					return true
+				}
+			}
+		}
+		return false
+	}
+	for _, name := range []string{"main.(*FSM).Apply", "raftstore.(*LevelDBStore).StoreLogs", "raftstore.(*LevelDBStore).ConvertToProto"} {
+		r.Check(converts(name, encFns), "C18.F2", name, "raft.Log -> pb.RaftLog: converts through a checked field copy", "-", itoa(nEnc)+" copying functions in the module",
+			"the function no longer fills a pb.RaftLog from the raft.Log field by field (itself or through a conversion function): entries are stored without some of their fields")
+	}
+	for _, name := range []string{"raftlog.FromBytes", "raftstore.(*LevelDBStore).GetLog", "main.(*FSM).Snapshot"} {
+		r.Check(converts(name, decFns), "C18.F2", name, "pb.RaftLog -> raft.Log: converts through a checked field copy", "-", itoa(nDec)+" copying functions in the module",
+			"the function no longer fills the raft.Log from the stored pb.RaftLog field by field (itself or through a conversion function): entries come back without some of their fields")
+	}
+	r.Check(nEnc >= 1, "C18.F2", "module", "raft.Log -> pb.RaftLog encoder copies found", "-", itoa(nEnc)+" functions", "no encoder copy found")
+	r.Check(nDec >= 1, "C18.F2", "module", "pb.RaftLog -> raft.Log decoder copies found", "-", itoa(nDec)+" functions", "no decoder copy found")
 
 	c.c18Framing(pbLog, pbMsg)
 	c.c18Batch()
